@@ -255,6 +255,11 @@ func parseFee(s string) sdk.Coins {
 
 // SignTx builds and signs the transaction. accNum/seq are what the client believes.
 func SignTx(txCfg client.TxConfig, actors []*Actor, ts *TxSpec, accNum, seq uint64, payerAcc ...uint64) ([]byte, []sdk.Msg, error) {
+	return SignTxWith(txCfg, actors, ts, accNum, seq, nil, payerAcc...)
+}
+
+// SignTxWith: resolve gives account number and sequence of the further signers of a Multi tx.
+func SignTxWith(txCfg client.TxConfig, actors []*Actor, ts *TxSpec, accNum, seq uint64, resolve func(sdk.AccAddress) (uint64, uint64), payerAcc ...uint64) ([]byte, []sdk.Msg, error) {
 	var payerAccNum, payerSeq uint64
 	if len(payerAcc) == 2 {
 		payerAccNum, payerSeq = payerAcc[0], payerAcc[1]
@@ -298,6 +303,32 @@ func SignTx(txCfg client.TxConfig, actors []*Actor, ts *TxSpec, accNum, seq uint
 		seq    uint64
 	}
 	signers := []sg{{priv, accNum, seq}}
+	if ts.Multi && resolve != nil {
+		// every account the messages name signs, in the order the chain derives from the messages
+		first := true
+		for _, addr := range txb.GetTx().GetSigners() {
+			if first {
+				first = false
+				if addr.Equals(signer.Addr) {
+					continue
+				}
+				// the first required signer is not the actor chosen to sign: keep the legacy shape
+				break
+			}
+			var who *Actor
+			for _, a := range actors {
+				if a.Addr.Equals(addr) {
+					who = a
+				}
+			}
+			if who == nil {
+				// a named account nobody holds the key of (module account ...): cannot be signed for
+				who = &Actor{Priv: secp256k1.GenPrivKeyFromSecret([]byte("simnet-nobody")), Addr: addr}
+			}
+			an, sq := resolve(addr)
+			signers = append(signers, sg{who.Priv, an, sq})
+		}
+	}
 	if ts.Payer > 0 && actorIdx(ts.Payer-1, len(actors)) != signer.Idx {
 		// an explicit fee payer that is not the message signer: it must co-sign
 		pa := actors[actorIdx(ts.Payer-1, len(actors))]
